@@ -110,6 +110,15 @@ func (t *Input) CoerceIn(v interface{}) (interface{}, error) {
 			if rt.Kind() == reflect.Struct {
 				rv = reflect.New(rt)
 			}
+		} else {
+			// Defaults and coerced values are set in a copy, the value
+			// given may be a literal or a default of a parsed request.
+			cp := make(map[string]interface{}, len(tv))
+			for k, fv := range tv {
+				cp[k] = fv
+			}
+			tv = cp
+			v = cp
 		}
 		for k, f := range t.fields.dict {
 			ov := tv[k]
